@@ -1,4 +1,5 @@
 import OH.Proofs.SynNum
+import OH.Proofs.SynTotal
 /-
 C05 — the parser accepts the supported grammar and builds the denoted expression.
 Property theorems only (helper lemmas: OH/Proofs/Peg.lean, SynBase.lean, SynNum.lean, Syn*.lean).
@@ -37,6 +38,21 @@ theorem C05_day_offset_denotes (off : Int) (h0 : off ≠ 0) (hb : off.natAbs < i
     (rest : List Char) (hr : ∀ r, rest ≠ 's' :: r) :
     ParsesTo g_day_offset buildDayOffset (Print.daysOffset off) rest off :=
   parses_day_offset off h0 hb rest hr
+
+/-- REJECTION CLAUSE, for every string: whatever the parser accepts has all its fields in range
+(`ParserWF`: years 1900..9999, months 1..12, days 1..31, weeks 1..53, weekdays, steps ≥ 1 within
+`u8`/`u16`, nth positions 1..5, start ≤ 24:00, end ≤ 48:00, event offsets within ±24:00, day offsets
+within `i64`, a non-empty time selector, a non-empty rule list whose first rule is Normal).  So a
+sentence with a start hour above 24, a minute above 59, an extended time above 48:00, day 0 or above
+31, week 0 or above 53, nth outside 1..5, a year outside 1900..9999 or a zero step is never accepted
+with that field: it is an error, or the offending characters are read as something else in range. -/
+theorem C05_accepted_fields_in_range (s : String) (e : Expr) (h : Parser.parse s = .ok e) :
+    ParserWF e = true :=
+  OH.Proofs.SynTotal.parse_string_ok_wf s e h
+
+/-- empty input is rejected (`&ANY` at the head of the entry rule) -/
+theorem C05_empty_rejected :
+    (match Parser.parseChars [] with | .error .parser => true | _ => false) = true := by decide +kernel
 
 /-- non-vacuity: a concrete sentence in a concrete context -/
 example : ParsesTo g_day_offset buildDayOffset " +12 days".toList [','] 12 :=
